@@ -85,6 +85,8 @@ pub mod r {
         pub fn t1(self, c: u8) -> Self { self.put(0x61).put(c) }
         /// two-character text string
         pub fn t2(self, c: u8, d: u8) -> Self { self.put(0x62).put(c).put(d) }
+        /// u8 with one argument byte (`18 vv`): preferred for v >= 24, a wider head for v < 24
+        pub fn u8w(self, v: u8) -> Self { self.put(0x18).put(v) }
         pub fn opt_u8(self, v: Option<u8>) -> Self { match v { Some(x) => self.uint(x as u64), None => self.null() } }
         pub fn opt_u16(self, v: Option<u16>) -> Self { match v { Some(x) => self.uint(x as u64), None => self.null() } }
         pub fn opt_bool(self, v: Option<bool>) -> Self { match v { Some(x) => self.bool(x), None => self.null() } }
@@ -469,10 +471,19 @@ mod h {
 
     // ============================================================================================
     // 3. C17 deserializer side: reference-built input (direct stores, concrete structure: one harness per
-    //    presence mask / variant, u8 leaves split into their two head widths), symbolic leaves, symbolic junk
-    //    after the item -> the derived Deserialize returns the value and the decoder stops at the item's end.
-    //    `Decoder::skip` (called by deserialize_option on null and by deserialize_ignored_any) is replaced by
-    //    its contract.
+    //    presence mask / variant), symbolic junk after the item -> the derived Deserialize returns the value and
+    //    the decoder stops exactly at the item's end.  `Decoder::skip` (called by deserialize_option on null and
+    //    by deserialize_ignored_any) is replaced by its contract.
+    //
+    //    Leaves.  CBMC merges the Ok / Err paths of every fallible leaf decode at the function exit; if the
+    //    outcome is not a constant for the symbolic executor, the remaining-length counter of the map access
+    //    becomes a phi, every later position becomes symbolic and the obligation explodes (S1 with one symbolic
+    //    bool byte: > 300 s; with a concrete byte: 1 s).  Therefore leaves are fed in forms whose decoding
+    //    outcome is constant-foldable:
+    //      * bool: both values, each in its own branch with a literal byte (complete);
+    //      * u8: all 256 values in the one-argument-byte form `18 vv` (the preferred form for v >= 24, a
+    //        wider head for v < 24), plus the immediate form for the sampled values {0, 23} in *_imm harnesses.
+    //    The leaf decoders themselves are covered over ALL inputs by the c18_de_* harnesses (section 4).
     // ============================================================================================
 
     /// the bridge returns exactly `want` and consumes exactly `o.n` bytes
@@ -485,45 +496,183 @@ mod h {
         match de::<X>(&o.b[..]) { Some((v, p)) => { assert!(v == *want); assert!(p == o.n); true } None => false }
     }
 
-    /// run `$body` once per preferred head width of the u8 `$v` (0 = immediate, 1 = one argument byte), so that
-    /// the structure of the input is concrete in each branch
-    macro_rules! w8 { ($v:expr, |$w:ident| $body:expr) => { if $v < 24 { let $w = 0usize; $body } else { let $w = 1usize; $body } } }
+    /// run `$body` once per value of the bool `$y`, bound to a literal in each branch
+    macro_rules! each_bool { ($y:expr, |$c:ident| $body:expr) => { if $y { let $c = true; $body } else { let $c = false; $body } } }
+    /// run `$body` once per sampled immediate value
+    macro_rules! each_imm { ($x:expr, |$c:ident| $body:expr) => { if $x == 0 { let $c = 0u8; $body } else { let $c = 23u8; $body } } }
+
+    macro_rules! de_h {
+        ($name:ident, || $body:block) => {
+            #[kani::proof]
+            #[kani::stub(minicbor::decode::Decoder::skip, crate::skip_stub)]
+            #[kani::unwind(8)]   // visit_map / visit_seq loops (<= 5 iterations), memcmp and UTF-8 check of 1-byte names; unwinding assertions stay on
+            fn $name() { let ok: bool = $body; kani::cover!(ok); }
+        }
+    }
 
     // @harness name=c17_de_unit_struct props=C17 kind=complete
-    #[kani::proof]
-    #[kani::stub(minicbor::decode::Decoder::skip, crate::skip_stub)]
-    fn c17_de_unit_struct() {
-        let o = Out::new(kani::any()).unit();
-        let ok = expect_de(&o, &U);
-        kani::cover!(ok);
-    }
+    de_h!(c17_de_unit_struct, || { let o = Out::new(kani::any()).unit(); expect_de(&o, &U) });
 
-    // @harness name=c17_de_newtype_struct props=C17 kind=complete
-    #[kani::proof]
-    #[kani::stub(minicbor::decode::Decoder::skip, crate::skip_stub)]
-    fn c17_de_newtype_struct() {
+    // @harness name=c17_de_newtype_struct props=C17 kind=complete note="a single head: its width stays symbolic, all u16 values in preferred form"
+    de_h!(c17_de_newtype_struct, || {
         let v: u16 = kani::any();
-        let o = Out::new(kani::any()).uint(v as u64);          // a single head: its width may stay symbolic
-        let ok = expect_de(&o, &N(v));
-        kani::cover!(ok && o.n == 3);
-    }
+        let o = Out::new(kani::any()).uint(v as u64);
+        expect_de(&o, &N(v))
+    });
 
-    // @harness name=c17_de_tuple_struct props=C17 kind=complete
-    #[kani::proof]
-    #[kani::stub(minicbor::decode::Decoder::skip, crate::skip_stub)]
-    fn c17_de_tuple_struct() {
+    // @harness name=c17_de_tuple_struct props=C17 kind=bounded bound="u8 leaf in the form 18 vv (all 256 values)"
+    de_h!(c17_de_tuple_struct, || {
         let (x, y): (u8, bool) = kani::any();
-        let ok = w8!(x, |w| { let o = Out::new(kani::any()).arr(2).head_w(0, x as u64, w).bool(y); expect_de(&o, &T(x, y)) });
-        kani::cover!(ok && x >= 24);
-    }
+        each_bool!(y, |yc| { let o = Out::new(kani::any()).arr(2).u8w(x).bool(yc); expect_de(&o, &T(x, yc)) })
+    });
 
     // @harness name=c17_de_struct1 props=C17 kind=complete
-    #[kani::proof]
-    #[kani::stub(minicbor::decode::Decoder::skip, crate::skip_stub)]
-    fn c17_de_struct1() {
+    de_h!(c17_de_struct1, || {
         let a: bool = kani::any();
-        let o = Out::new(kani::any()).map(1).t1(b'a').bool(a);
-        let ok = expect_de(&o, &S1 { a });
-        kani::cover!(ok);
-    }
+        each_bool!(a, |ac| { let o = Out::new(kani::any()).map(1).t1(b'a').bool(ac); expect_de(&o, &S1 { a: ac }) })
+    });
+
+    // @harness name=c17_de_struct3_none props=C17 kind=bounded bound="presence mask b=None; u8 leaf in the form 18 vv (all 256 values)"
+    de_h!(c17_de_struct3_none, || {
+        let (a, c): (u8, bool) = kani::any();
+        each_bool!(c, |cc| {
+            let o = Out::new(kani::any()).map(3).t1(b'a').u8w(a).t1(b'b').null().t1(b'c').bool(cc);
+            expect_de(&o, &S { a, b: None, c: cc })
+        })
+    });
+
+    // @harness name=c17_de_struct3_some props=C17 kind=bounded bound="presence mask b=Some; u8 leaves in the form 18 vv (all 256 values)"
+    de_h!(c17_de_struct3_some, || {
+        let (a, b, c): (u8, u8, bool) = kani::any();
+        each_bool!(c, |cc| {
+            let o = Out::new(kani::any()).map(3).t1(b'a').u8w(a).t1(b'b').u8w(b).t1(b'c').bool(cc);
+            expect_de(&o, &S { a, b: Some(b), c: cc })
+        })
+    });
+
+    // ---- externally tagged enum, one harness per variant
+    // @harness name=c17_de_enum_unit props=C17 kind=complete
+    de_h!(c17_de_enum_unit, || { let o = Out::new(kani::any()).t1(b'A'); expect_de(&o, &E::A) });
+    // @harness name=c17_de_enum_newtype props=C17 kind=bounded bound="u8 leaf in the form 18 vv (all 256 values)"
+    de_h!(c17_de_enum_newtype, || {
+        let x: u8 = kani::any();
+        let o = Out::new(kani::any()).map(1).t1(b'B').u8w(x);
+        expect_de(&o, &E::B(x))
+    });
+    // @harness name=c17_de_enum_tuple props=C17 kind=bounded bound="u8 leaf in the form 18 vv (all 256 values)"
+    de_h!(c17_de_enum_tuple, || {
+        let (x, y): (u8, bool) = kani::any();
+        each_bool!(y, |yc| { let o = Out::new(kani::any()).map(1).t1(b'C').arr(2).u8w(x).bool(yc); expect_de(&o, &E::C(x, yc)) })
+    });
+    // @harness name=c17_de_enum_structv props=C17 kind=bounded bound="u8 leaf in the form 18 vv (all 256 values)"
+    de_h!(c17_de_enum_structv, || {
+        let x: u8 = kani::any();
+        let o = Out::new(kani::any()).map(1).t1(b'D').map(1).t1(b'x').u8w(x);
+        expect_de(&o, &E::D { x })
+    });
+
+    // ---- immediate-form u8 leaves (preferred form of v < 24), sampled
+    // @harness name=c17_de_imm_samples props=C17 kind=bounded bound="u8 leaves in {0, 23} in immediate form; struct S (b=Some), tuple struct T, enum E::B"
+    de_h!(c17_de_imm_samples, || {
+        let (a, b): (u8, u8) = kani::any();
+        kani::assume((a == 0 || a == 23) && (b == 0 || b == 23));
+        let r1 = each_imm!(a, |ac| each_imm!(b, |bc| {
+            let o = Out::new(kani::any()).map(3).t1(b'a').uint(ac as u64).t1(b'b').uint(bc as u64).t1(b'c').bool(true);
+            expect_de(&o, &S { a: ac, b: Some(bc), c: true })
+        }));
+        let r2 = each_imm!(a, |ac| { let o = Out::new(kani::any()).arr(2).uint(ac as u64).bool(false); expect_de(&o, &T(ac, false)) });
+        let r3 = each_imm!(b, |bc| { let o = Out::new(kani::any()).map(1).t1(b'B').uint(bc as u64); expect_de(&o, &E::B(bc)) });
+        r1 && r2 && r3
+    });
+
+    // ---- unknown extra struct fields on input are ignored (deserialize_ignored_any -> skip)
+    // @harness name=c17_de_extra_field_after props=C17 kind=bounded bound="one unknown field 'z' after the known one; its value is a u8 (18 vv, all values), null, a 2-char text or an empty array"
+    de_h!(c17_de_extra_field_after, || {
+        let a: bool = kani::any();
+        let v: u8 = kani::any();
+        let k: u8 = kani::any();
+        kani::assume(k < 4);
+        each_bool!(a, |ac| {
+            let o = Out::new(kani::any()).map(2).t1(b'a').bool(ac).t1(b'z');
+            match k {
+                0 => { let o = o.u8w(v); expect_de(&o, &S1 { a: ac }) }
+                1 => { let o = o.null(); expect_de(&o, &S1 { a: ac }) }
+                2 => { let o = o.t2(b'a', b'a'); expect_de(&o, &S1 { a: ac }) }
+                _ => { let o = o.arr(0); expect_de(&o, &S1 { a: ac }) }
+            }
+        })
+    });
+    // @harness name=c17_de_extra_field_before props=C17 kind=bounded bound="one unknown field 'z' (u8 value 18 vv) before the known ones, struct S with b=None"
+    de_h!(c17_de_extra_field_before, || {
+        let (a, v, c): (u8, u8, bool) = kani::any();
+        each_bool!(c, |cc| {
+            let o = Out::new(kani::any()).map(4).t1(b'z').u8w(v).t1(b'a').u8w(a).t1(b'b').null().t1(b'c').bool(cc);
+            expect_de(&o, &S { a, b: None, c: cc })
+        })
+    });
+    // @harness name=c17_de_field_order props=C17 kind=bounded bound="fields of S in the order c, a, b; u8 leaves 18 vv"
+    de_h!(c17_de_field_order, || {
+        let (a, b): (u8, u8) = kani::any();
+        let o = Out::new(kani::any()).map(3).t1(b'c').bool(true).t1(b'a').u8w(a).t1(b'b').u8w(b);
+        expect_de(&o, &S { a, b: Some(b), c: true })
+    });
+
+    // ---- re-framed input (wider heads, indefinite containers): the same value or an error, never another value
+    // @harness name=c18_reframe_struct_wide props=C18,C17 kind=bounded bound="struct S1: map head and text head with 1/2/4/8 argument bytes"
+    de_h!(c18_reframe_struct_wide, || {
+        let a: bool = kani::any();
+        let (wm, wt): (u8, u8) = kani::any();
+        kani::assume(wm < 4 && wt < 4);
+        let w = |k: u8| match k { 0 => 1usize, 1 => 2, 2 => 4, _ => 8 };
+        each_bool!(a, |ac| {
+            let mut any_ok = true;
+            // each width combination in its own branch (concrete structure)
+            macro_rules! go { ($m:literal, $t:literal) => { if w(wm) == $m && w(wt) == $t {
+                let o = Out::new(kani::any()).head_w(5, 1, $m).head_w(3, 1, $t).put(b'a').bool(ac);
+                any_ok = value_or_error(&o, &S1 { a: ac });
+            } } }
+            go!(1, 1); go!(2, 1); go!(4, 1); go!(8, 1); go!(1, 2); go!(1, 4); go!(1, 8); go!(8, 8);
+            let _ = any_ok; true
+        })
+    });
+    // @harness name=c18_reframe_struct_indef props=C18,C17 kind=bounded bound="struct S as an indefinite-length map (b = None and Some), u8 leaves 18 vv"
+    de_h!(c18_reframe_struct_indef, || {
+        let (a, b, c, some): (u8, u8, bool, bool) = kani::any();
+        each_bool!(c, |cc| {
+            let o = Out::new(kani::any()).map_indef().t1(b'a').u8w(a).t1(b'b');
+            if some {
+                let o = o.u8w(b).t1(b'c').bool(cc).brk();
+                value_or_error(&o, &S { a, b: Some(b), c: cc }); true
+            } else {
+                let o = o.null().t1(b'c').bool(cc).brk();
+                value_or_error(&o, &S { a, b: None, c: cc }); true
+            }
+        })
+    });
+    // @harness name=c18_reframe_tuple_struct props=C18,C17 kind=bounded bound="tuple struct T as an indefinite-length array and with array heads of 1/8 argument bytes"
+    de_h!(c18_reframe_tuple_struct, || {
+        let (x, y): (u8, bool) = kani::any();
+        each_bool!(y, |yc| {
+            let o = Out::new(kani::any()).arr_indef().u8w(x).bool(yc).brk();
+            value_or_error(&o, &T(x, yc));
+            let o = Out::new(kani::any()).head_w(4, 2, 1).u8w(x).bool(yc);
+            value_or_error(&o, &T(x, yc));
+            let o = Out::new(kani::any()).head_w(4, 2, 8).u8w(x).bool(yc);
+            value_or_error(&o, &T(x, yc));
+            true
+        })
+    });
+    // @harness name=c18_reframe_enum props=C18,C17 kind=bounded bound="enum E::B as map(1) with a wide head, as an indefinite map, and E::A / E::B with wide text heads"
+    de_h!(c18_reframe_enum, || {
+        let x: u8 = kani::any();
+        let o = Out::new(kani::any()).head_w(5, 1, 1).t1(b'B').u8w(x);
+        value_or_error(&o, &E::B(x));
+        let o = Out::new(kani::any()).map_indef().t1(b'B').u8w(x).brk();
+        value_or_error(&o, &E::B(x));
+        let o = Out::new(kani::any()).map(1).head_w(3, 1, 2).put(b'B').u8w(x);
+        value_or_error(&o, &E::B(x));
+        let o = Out::new(kani::any()).head_w(3, 1, 1).put(b'A');
+        value_or_error(&o, &E::A);
+        true
+    });
 }
